@@ -252,6 +252,11 @@ for _p, _t in LEVEL_TEXT.items():
 PCTOR = [U(["contracts.problem_spaces"], f"{t}.__init__", timeout_ms=20000) for t in (DM, MJ, HX, FO)]
 _extend("C14", PCTOR); _extend("C15", PCTOR); _extend("C20", PCTOR); _extend("C16", PCTOR)
 
+# every property is quantified over problems / instances / call histories: none may depend on hidden module-level state
+GLOBALS = dict(script="contracts/global_state.py", id="global_state", modules=[], target="global_state")
+for _p in list(PROPS): PROPS[_p]["units"] = PROPS[_p]["units"] + [GLOBALS]
+_extend("C13", [U(PRB, f"{HX}.random_event_probability", timeout_ms=30000)] + [U(PRB, f"{HX}.{m}") for m in ("_get_probs_ia_lt_stock_a_ib_lt_stock_b", "_get_probs_ia_eq_stock_a_ib_lt_stock_b", "_get_probs_ia_lt_stock_a_ib_eq_stock_b", "_get_probs_ia_eq_stock_a_ib_eq_stock_b")])
+
 HOOK_COMMITS = []
 NOT_APPLICABLE = {
     "C11": "crash atomicity and writer-thread interleavings live inside Orbax's commit protocol, which is not code of this repository; contracts on mdpax's calls can only assume atomic commit, not decide it (DESIGN.md section 6 C11). The contract-shaped fragments (step label, no mutation of a state handed to an asynchronous save, latest-step selection) are discharged under C09/C10/C12.",
